@@ -72,3 +72,122 @@ package fs
 //@   ensures[C11] iofaults == old(iofaults) && fsize[f] > 0x1070 && decWatermark(fcontent[f]) ==> err == nil && len(key) == 0 @dec
 //@   ensures[C11] iofaults == old(iofaults) && (fsize[f] < 0x1070 || (!encWatermark(fcontent[f]) && !decWatermark(fcontent[f]))) ==> err == ErrNot3k3y @neither
 //@   ensures[C13] fopen == old(fopen) && fpos == old(fpos)
+
+// ---- sizes ------------------------------------------------------------------------------------
+
+//@ spec secs(b int) int
+//@ axiom secs-def: forall b :: b >= 0 ==> 2048*secs(b) >= b && 2048*secs(b) < b + 2048
+
+//@ func sizeBytes.floorSectors
+//@   tags C04,C09
+//@   requires 0 <= b && b < 1<<42
+//@   ensures 2048*result <= b && b < 2048*result + 2048
+
+//@ func sizeBytes.sectors
+//@   tags C04,C09
+//@   requires 0 <= b && b < 1<<41
+//@   ensures result == secs(b)
+
+//@ func sizeSectors.bytes
+//@   tags C04,C09
+//@   ensures result == 2048 * s
+
+//@ func sizeSectors.next
+//@   tags C04
+//@   requires s < 0x7fffffff
+//@   ensures result == s + 1
+
+//@ func sizeSectors.prev
+//@   tags C04
+//@   requires s > -0x80000000
+//@   ensures result == s - 1
+
+//@ func iso9660encoder.size
+//@   tags C04,C09
+//@   requires e != nil
+//@   ensures result == len(deref(e))
+
+// ---- generated image: data-structure invariant and abstract view (C09, C07, C04) ----------------
+//
+// Quantifiers over the file list range over ABSOLUTE indices y of the backing array
+// (base(s) <= y < end(s), element at(s, y)): the bound variable is then the whole index term,
+// which keeps the solver's trigger matching independent of how the code computes an index.
+
+//@ spec fstart(v *VirtualISO, y int) int = 2048 * at(v.files, y).rLBA
+//@ spec fend(v *VirtualISO, y int) int = 2048 * at(v.files, y).rLBA + 2048 * secs(at(v.files, y).size)
+//@ spec fidx(v ref, x int) int
+//@ spec img(v ref, x int) int
+//@ pred fileBound(f ref, p str) := fcontent[f] == pcontent(p) && fsize[f] == psize(p)
+//@ pred wfISO(v *VirtualISO) := wfShape(v) && filesBound(v)
+
+//@ pred wfShape(v *VirtualISO) := v != nil && v.fs != nil
+//@   && len(v.fsBuf) % 2048 == 0 && len(v.fsBuf) >= 40960 && len(v.fsBuf) < 1<<40
+//@   && (forall y {at(v.files, y).size} {at(v.files, y).rLBA} :: base(v.files) <= y && y < end(v.files) ==> at(v.files, y).size >= 0 && at(v.files, y).size < 1<<41 && at(v.files, y).rLBA >= 0 && fstart(v, y) >= len(v.fsBuf) && fend(v, y) <= v.padAreaStart)
+//@   && (forall a, b {at(v.files, a).size, at(v.files, b).rLBA} :: base(v.files) <= a && a < b && b < end(v.files) ==> fend(v, a) <= fstart(v, b))
+//@   && (forall a, b {at(v.files, a).size, at(v.files, b).rLBA} :: base(v.files) <= a && b == a + 1 && b < end(v.files) ==> fend(v, a) == fstart(v, b))
+//@   && (forall x {fidx(v, x)} :: len(v.fsBuf) <= x && x < v.padAreaStart ==> base(v.files) <= fidx(v, x) && fidx(v, x) < end(v.files) && fstart(v, fidx(v, x)) <= x && x < fend(v, fidx(v, x)))
+//@   && (len(v.files) > 0 ==> fend(v, end(v.files) - 1) == v.padAreaStart)
+//@   && v.padAreaStart >= len(v.fsBuf) && v.padAreaStart % 2048 == 0
+//@   && v.padAreaSize >= 65536 && v.totalSize == v.padAreaStart + v.padAreaSize && v.totalSize < 1<<41
+//@   && 0 <= v.offset
+//@ pred filesBound(v *VirtualISO) := forall y {at(v.files, y).file} :: base(v.files) <= y && y < end(v.files) && at(v.files, y).file != nil ==> fileBound(at(v.files, y).file, at(v.files, y).path)
+//@ pred filesIntact(v *VirtualISO) := forall y {at(v.files, y).path} :: base(v.files) <= y && y < end(v.files) ==> pexists(at(v.files, y).path) && psize(at(v.files, y).path) >= at(v.files, y).size
+
+// img is the one fixed byte string of the image: metadata as built, file bytes at their sector
+// runs (zero up to the sector end), zeros in the trailing pad area. Stated as facts about an
+// uninterpreted function; consistent because sector runs are disjoint (wfShape).
+//@ pred imgDef(v *VirtualISO) :=
+//@      (forall x {img(v, x)} :: 0 <= x && x < len(v.fsBuf) ==> img(v, x) == v.fsBuf[x])
+//@   && (forall y, x {img(v, x), at(v.files, y).size} :: base(v.files) <= y && y < end(v.files) && fstart(v, y) <= x && x < fend(v, y) ==> img(v, x) == (x - fstart(v, y) < at(v.files, y).size ? pcontent(at(v.files, y).path)[x - fstart(v, y)] : 0))
+//@   && (forall x {img(v, x)} :: v.padAreaStart <= x && x < v.totalSize ==> img(v, x) == 0)
+//@ func fileItem.openOnDemand results(f, err)
+//@   tags C04,C09,C13
+//@   requires i != nil && fs != nil
+//@   modifies i.file, fopen, fpos, iofaults
+//@   ensures iofaults >= old(iofaults)
+//@   ensures err == nil ==> f != nil && i.file == f
+//@   ensures err == nil && old(i.file) != nil ==> f == old(i.file) && fopen == old(fopen) && fpos == old(fpos)
+//@   ensures err == nil && old(i.file) == nil ==> fresh(f) && fopen == mapset(old(fopen), f, true) && fpos == mapset(old(fpos), f, 0) && fileBound(f, i.path) && fsize[f] >= 0
+//@   ensures err != nil ==> f == nil && i.file == old(i.file) && fopen == old(fopen) && fpos == old(fpos)
+//@   ensures iofaults == old(iofaults) && pexists(i.path) ==> err == nil
+
+//@ func filesList.filesToRead$2 params(item, target)
+//@   tags C04,C09
+//@   requires item.size >= 0 && item.size < 1<<41 && item.rLBA >= 0 && item.rLBA + secs(item.size) < 1<<31
+//@   ensures result == (target < item.rLBA ? 1 : (target >= item.rLBA + secs(item.size) ? 0 - 1 : 0)) @def
+
+// The buffer must not be the image's own metadata buffer (cannot happen from outside the package).
+//@ func VirtualISO.read results(n, err)
+//@   tags C04,C09
+//@   any t int
+//@   requires wfISO(viso) && imgDef(viso) && off >= 0 && off < 1<<41 && buf.$arr != viso.fsBuf.$arr
+//@   let X = off < len(viso.fsBuf) ? len(viso.fsBuf) : off
+//@   let w = fidx(viso, X)
+//@   modifies elems(buf), elems(viso.files).file, fopen, fpos, iofaults
+//@   ensures[C09,C04] 0 <= n && n <= len(buf) @len
+//@   ensures[C09] n > 0 ==> off + n <= viso.totalSize @within
+//@   ensures[C09] viso.isClosed ==> n == 0 && err == afero.ErrFileClosed @closed
+//@   ensures[C09] !viso.isClosed && (off >= viso.totalSize || len(buf) == 0) ==> n == 0 && err == io.EOF @eof
+//@   ensures[C09] !viso.isClosed && off < viso.totalSize && len(buf) > 0 && err == nil ==> n > 0 @progress
+//@   ensures[C09] !viso.isClosed && off < viso.totalSize && len(buf) > 0 && iofaults == old(iofaults) && filesIntact(viso) ==> err == nil @no-spurious-error
+//@   ensures[C09,C07] 0 <= t && t < n ==> raw(buf, base(buf) + t) == img(viso, off + t) @content
+//@   ensures forall x {raw(buf, x)} :: x < base(buf) || x >= base(buf) + len(buf) ==> raw(buf, x) == old(raw(buf, x)) @frame-buf
+//@   ensures wfISO(viso) && iofaults >= old(iofaults)
+//@   loop filesList.filesToRead.1 invariant 0 <= $read && $remain >= 0 && $remain == len(old(buf)) - $read @counts
+//@   loop filesList.filesToRead.1 invariant $buf.$arr == old(buf).$arr && $buf.$off == old(buf).$off + $read && len($buf) == $remain && $buf.$cap == old(buf).$cap - $read @bufshape
+//@   loop filesList.filesToRead.1 invariant $offset == off + $read && $offset <= viso.padAreaStart @offset
+//@   loop filesList.filesToRead.1 invariant 0 <= t && t < $read ==> raw(old(buf), base(old(buf)) + t) == img(viso, off + t) @content
+//@   loop filesList.filesToRead.1 invariant forall x {raw(old(buf), x)} :: x < base(old(buf)) || x >= base(old(buf)) + len(old(buf)) ==> raw(old(buf), x) == old(raw(buf, x)) @frame
+//@   loop filesList.filesToRead.1 invariant startFile <= i && i <= len(l) && l == viso.files @index
+//@   loop filesList.filesToRead.1 invariant $remain > 0 ==> toRead == $remain && offset == $offset @sync
+//@   loop filesList.filesToRead.1 invariant $remain == 0 ==> toRead <= 0 @done
+//@   loop filesList.filesToRead.1 invariant $remain > 0 && i < len(l) ==> ($offset == fstart(viso, base(l) + i) || (i == startFile && fstart(viso, base(l) + i) <= $offset && $offset < fend(viso, base(l) + i))) @at-file
+//@   loop filesList.filesToRead.1 invariant $remain > 0 && i == len(l) ==> $offset == viso.padAreaStart @at-end
+//@   loop filesList.filesToRead.1 invariant filesBound(viso) && iofaults >= old(iofaults) @members
+//@   loop filesList.filesToRead.1 decreases len(l) - i
+//@   loop 2 invariant 0 <= i && i <= toWrite @idx
+//@   loop 2 invariant forall x {raw(buf, x)} :: raw(buf, x) == ((base(buf) <= x && x < base(buf) + i) ? 0 : pre(raw(buf, x))) @zeroed
+//@   loop 2 decreases toWrite - i
+//@   loop 3 invariant 0 <= i && i <= toRead @idx
+//@   loop 3 invariant forall x {raw(buf, x)} :: raw(buf, x) == ((base(buf) <= x && x < base(buf) + i) ? 0 : pre(raw(buf, x))) @zeroed
+//@   loop 3 decreases toRead - i
